@@ -393,9 +393,11 @@ fn create_pkg_length(len: usize, include_self: bool) -> Vec<u8> {
         4
     };
 
-    let length = len + if include_self { length_length } else { 0 };
-    // A PkgLength holds 28 bits at most.
-    assert!(length < 2usize.pow(28));
+    // A PkgLength holds 28 bits at most (and the sum itself must not wrap).
+    let length = len
+        .checked_add(if include_self { length_length } else { 0 })
+        .filter(|l| *l < 2usize.pow(28))
+        .expect("PkgLength must be below 2^28");
 
     match length_length {
         1 => result.push(length as u8),
